@@ -118,7 +118,18 @@ def _container(V, kind):
     oc = dict(collect_errors=True)
     if cap:
         oc['max_errors'] = cap
-    ra = attempt(type_transform, x, T, Options())
+    base = {}
+    if V.bool('ignore_constraints'):
+        # constraints waived: only unconvertible elements ('x') fail
+        base['ignore_constraints'] = True
+        if kind == 'list':
+            failing = [i for i, e in enumerate(x) if e == 'x']
+        elif kind == 'tuple':
+            failing = [i for i, e in enumerate(x[:2]) if e == 'x'] + [i for i in range(len(x), 2)]
+        else:
+            failing = [k for k, e in x.items() if e == 'x']
+    oc.update(base)
+    ra = attempt(type_transform, x, T, Options(**base))
     rb = attempt(type_transform, x, T, Options(**oc))
     det = lambda: '%s[int>=%d] input=%r max_errors=%r: fail-fast -> %r ; collecting -> %r %r ; failing alone: %r' % (
         kind, a, x, cap, ra, rb, collected_items(rb[1]) if rb[0] != 'ok' else '', failing)
@@ -145,7 +156,7 @@ def _container(V, kind):
 for _k in ('list', 'tuple', 'dict'):
     ob('container/' + _k, marks=['accept', 'reject', 'capped'], budget=(60, 300),
        bounds='%s with 0..3 elements, each solver int -4..4 | "x" | "5", element type Rule[int](ge=a), a in -2..2 symbolic; '
-              'max_errors from none,1,2' % {'list': 'List[IntGe]', 'tuple': 'Tuple[IntGe, IntGe] (inputs shorter and longer '
+              'max_errors from none,1,2; ignore_constraints solver-picked' % {'list': 'List[IntGe]', 'tuple': 'Tuple[IntGe, IntGe] (inputs shorter and longer '
                                             'than the prefix)', 'dict': 'Dict[str, IntGe]'}[_k],
        out='nested containers')((lambda k: lambda V: _container(V, k))(_k))
 
